@@ -544,16 +544,16 @@ impl St {
                     self.out.cov.bump("slow_rerun");
                     continue;
                 }
-                self.out.violate(
-                    "C12",
-                    format!("C12|slow|{kind}"),
-                    format!(
-                        "decoding {} bytes as {kind} ({class}) took {:.2} s twice; input={}",
-                        bytes.len(),
-                        wall.as_secs_f64(),
-                        hx(bytes)
-                    ),
-                );
+                // CPU time of a process is still inflated many times over when 32 shards compete
+                // for memory bandwidth and page faults: the input becomes a candidate that the
+                // runner re-measures alone, after all shards have finished (c12_post.py)
+                self.out.cov.bump("slow_candidates");
+                let e = self.out.extra.entry("c12_slow_candidates".to_string()).or_insert_with(|| serde_json::Value::Array(vec![]));
+                if let serde_json::Value::Array(a) = e {
+                    if a.len() < 8 {
+                        a.push(serde_json::json!({"kind": kind, "class": class, "secs": wall.as_secs_f64(), "input": hx(bytes)}));
+                    }
+                }
             }
             if self.alloc_on {
                 // single request: 1024·len + 1 MiB. Peak: the probe keeps the decoded value, its
